@@ -7,6 +7,6 @@ seeds="${SEEDS:-2 3 4 5 6 7 8 9}"
 ids="${IDS:-C01 C02 C03 C04 C05 C06 C07 C08 C09 C10 C11 C12 C13 C14 C15 C16 C17 C18 C19 C20}"
 for s in $seeds; do for p in $ids; do
   out=$(VERIF_SEED=$s ./check $p --tier ${TIER:-quick} 2>&1); rc=$?
-  echo "seed=$s $p rc=$rc $(echo "$out" | grep -m2 -E 'VIOLATION|MACHINERY|Traceback' | cut -c1-200 | tr '\n' ' ')"
+  echo "seed=$s $p rc=$rc $(echo "$out" | grep -m2 -E 'VIOLATION|MACHINERY|Traceback|NOTE' | cut -c1-200 | tr '\n' ' ')"
 done; done
 rm -rf $VERIF_EVIDENCE_DIR
